@@ -1,4 +1,5 @@
 import SpecVerif.Proofs.Lemmas.Sides
+import SpecVerif.Proofs.Lemmas.CRatField
 /-
   C06 — conversions among 'onesided', 'twosided' and 'centerdc' are refinements of one abstract
   object, a two-sided spectrum `S : ℕ → K` of `n = NFFT` bins.
@@ -248,5 +249,33 @@ example : convertPath false 5 .one [.center, .two, .one] ([1, 4, 6] : List ℚ) 
   simp [convertPath, convert, unfoldOne, fftshift, ifftshift, twosided2onesided, vec, nth,
     List.range, List.range.loop]
   norm_num
+
+/-! ### instantiation at the executed scalar type `CRat`
+
+`Lemmas/CRatField.lean` makes the Gaussian rationals of the executable model a `Field` / `StarRing` whose
+operations ARE the model's hand-written instances.  The theorems below are the generic theorems of this
+file specialised to `K := CRat` (by plain application — no rewriting): their statements elaborate to the
+model functions applied to the model's own instances (`CRat.instAdd`, `CRat.instMul`, `CRat.instDiv`, …,
+`CRat.instConj`), i.e. to the code that the differential test executes; `conj` is the model's conjugation.
+The `example … := rfl` lines check that the `Field`-path elaboration used by the generic theorems,
+instantiated at `CRat`, is that very function. -/
+section CRatInstantiation
+
+/-- **`stored_path_independent` for the executed model**: `2 ≠ 0` holds in `CRat` (characteristic zero),
+so the hypothesis `h2` of the generic theorem disappears -/
+theorem stored_path_independent_CRat {n : ℕ} (hn : 1 ≤ n) (p : List CRat)
+    (hp : p.length = (rangeBins .one n).length) (ts ts' : List Side)
+    (hlast : ts.getLastD .one = ts'.getLastD .one) :
+    convertPath false n .one ts p = convertPath false n .one ts' p
+    ∧ ∃ q, convertPath false n .one ts p = some q
+        ∧ q.length = (rangeBins (ts.getLastD .one) n).length ∧ q.sum = p.sum :=
+  stored_path_independent two_ne_zero hn p hp ts ts' hlast
+
+example : (fun (K : Type) [Field K] => (convert : _ → _ → _ → _ → List K → _)) CRat
+    = @convert CRat CRat.instMul CRat.instDiv CRat.instOfNatOfNatNat CRat.instNatCast := rfl
+example : @convert CRat CRat.instMul CRat.instDiv CRat.instOfNatOfNatNat CRat.instNatCast
+    = convert := rfl
+
+end CRatInstantiation
 
 end SpecVerif.C06
